@@ -432,6 +432,12 @@ func Run(clients []func(), schedule []uint16, maxSteps int) *RunResult {
 			}
 		}
 		if len(runnable) == 0 {
+			// every task waits: simulated time jumps to the next timer (tasks waiting for one are polling)
+			if IdleHook != nil {
+				setActive(false) // a timer function (AfterFunc) runs outside the token protocol
+				IdleHook()
+				setActive(true)
+			}
 			for i := 0; i < s.count(); i++ {
 				if status[i] == stPolling {
 					runnable = append(runnable, i)
